@@ -49,6 +49,10 @@ impl Op {
     }
 }
 
+/// what is executing right now, for a fault handler (relaxed; never read by a decision)
+pub static CUR_RUN: std::sync::atomic::AtomicU64 = std::sync::atomic::AtomicU64::new(u64::MAX);
+pub static CUR_OP: std::sync::atomic::AtomicU64 = std::sync::atomic::AtomicU64::new(u64::MAX);
+
 pub fn hash_bytes(b: &[u8]) -> u64 {
     let mut h = 0x9e37_79b9_7f4a_7c15u64 ^ (b.len() as u64);
     for c in b.chunks(8) {
@@ -191,7 +195,12 @@ pub fn guarded<R>(f: impl FnOnce() -> R) -> Result<R, String> {
 }
 
 pub fn run_generated<S: Scenario>(s: &S, mix: &str, seed: u64, max_ops: usize, stats: &mut Stats) -> RunOutcome {
+    run_generated_at(s, mix, seed, 0, max_ops, stats)
+}
+
+pub fn run_generated_at<S: Scenario>(s: &S, mix: &str, seed: u64, run_index: u64, max_ops: usize, stats: &mut Stats) -> RunOutcome {
     let mut st = Streams::new(seed);
+    st.run_index = run_index;
     let setup = s.gen_setup(mix, &mut st);
     let mut w = s.new_world(&setup);
     let mut ops = Vec::new();
@@ -419,7 +428,10 @@ pub fn run_batch<S: Scenario>(s: &S, cfg: &BatchCfg) -> BatchResult {
                         break;
                     }
                     let seed = run_seed(cfg.seed, s.name().split('@').next().unwrap(), r);
-                    let out = run_generated(s, &cfg.mix, seed, cfg.max_ops, &mut res.stats);
+                    if threads == 1 {
+                        CUR_RUN.store(r, std::sync::atomic::Ordering::Relaxed);
+                    }
+                    let out = run_generated_at(s, &cfg.mix, seed, r, cfg.max_ops, &mut res.stats);
                     res.runs += 1;
                     res.ops += out.ops.len() as u64;
                     res.digest_sum = res.digest_sum.wrapping_add(out.digest);
@@ -428,7 +440,7 @@ pub fn run_batch<S: Scenario>(s: &S, cfg: &BatchCfg) -> BatchResult {
                     }
                     if cfg.recheck_every > 0 && r % cfg.recheck_every == 0 {
                         let mut scratch = Stats::default();
-                        let again = run_generated(s, &cfg.mix, seed, cfg.max_ops, &mut scratch);
+                        let again = run_generated_at(s, &cfg.mix, seed, r, cfg.max_ops, &mut scratch);
                         if again.digest != out.digest {
                             res.nondeterministic.push(seed);
                         }
